@@ -18,6 +18,7 @@ def run(db, chk):
     attribute_level_rule(db, chk)
     failed_push_not_popped_rule(db, chk)
     transition_flag_rule(db, chk)
+    root_once_rule(db, chk)
     f = db.one(r"^gix_fs::stack::<impl gix_fs::Stack>::make_relative_path_current$")
     fl = Flow(f)
     pushes = f.calls_to(r"stack::Delegate::push$")
@@ -168,3 +169,33 @@ def transition_flag_rule(db, chk):
         chk.ob("announced-directory-is-remembered", "make_relative_path_current push_directory@%d" % c.line, bool(e["good"]) and not leak,
                "after the component was announced as a directory a return is reachable without `current_is_directory` being set: the delegate never receives the matching pop_directory() (`a/b`, then `a/b/../c`: `a` stays open for ever)",
                c.where(), key="transition-flag|make_relative_path_current")
+
+
+def root_once_rule(db, chk):
+    """the root directory is announced with push_directory() and never popped, so it may be announced only ONCE per stack.  `valid_components
+    == 0` is also true again after the first component of a path was rejected: the announcement of the root therefore depends on a further
+    piece of state that is written on its success edge (a `root was pushed` flag), not on the component count alone - otherwise every rejected
+    first component adds another root level to the delegate (attributes and ignore stacks grow, pushes and pops are unbalanced)."""
+    from gx.flow import control_switches
+    f = db.one(r"^gix_fs::stack::<impl gix_fs::Stack>::make_relative_path_current$")
+    fl = Flow(f)
+    in_loop = set().union(*[l["body"] for l in f.loops()]) if f.loops() else set()
+    roots_ = []
+    for c in f.calls_to(r"stack::Delegate::push_directory$"):
+        if c.block in in_loop:
+            continue
+        deps = set()
+        for b in control_switches(f, c.block):
+            deps |= {r[2][0] for r in fl.roots(f.term(b)[1], stop_named=False) if r[0] == "arg" and r[1] == 1 and r[2]}
+        if ".valid_components" in deps:
+            roots_.append((c, deps))
+    chk.floor("make_relative_path_current: announcement of the root directory", len(roots_), 1)
+    for c, deps in roots_:
+        e = fl.result_edges(c)
+        after = set().union(*[f.reach_from(t) for _, t in e["good"]]) if e["good"] else set()
+        written = {pl[-1] for bi, si, pl, rv, ln, mc in f.assigns() if pl and pl[0] == 1 and isinstance(pl[-1], str) and pl[-1].startswith(".") and bi in after
+                   and rv[0] == "use" and "p" not in rv[1]}
+        memo = (deps - {".valid_components", ".current_is_directory"}) & written
+        chk.ob("root-announced-once", "make_relative_path_current push_directory(root)@%d" % c.line, bool(memo),
+               "whether the root is announced depends on %s only and nothing records that it happened: after a rejected first component (`bad/x`) the next call announces the root again - the delegate holds [root, root, ..]" % sorted(deps),
+               c.where(), key="root-once|make_relative_path_current")
